@@ -414,6 +414,21 @@ def _table(r, rt, cp, ca):
 def _forwarding(r, p, cg, check, fix):
     ar = p.function("vsg.apply_rules:apply_rules")
     cla = ar.params[0]
+    # the report is made from what the final, gated check left on the rule objects: whatever the fix pass left there
+    # (it analyses warning rules of every phase up to fix_phase without fixing them) must be discarded first, or rules
+    # beyond the gate contribute violations and the gated report is no longer a prefix of the all-phases report
+    from ..flow import Facts as _Facts
+
+    fa = _Facts(ar.node)
+    chk_calls = [n for n in walk_function(ar.node) if isinstance(n, ast.Call) and isinstance(n.func, ast.Attribute) and n.func.attr == "check_rules"]
+    fix_calls = [n for n in walk_function(ar.node) if isinstance(n, ast.Call) and isinstance(n.func, ast.Attribute) and n.func.attr == "fix"]
+    for c in chk_calls:
+        recv = norm(c.func.value)
+        kk = "%s:clear-before-check" % ar.key
+        if fix_calls and ("call", "%s.clear_violations" % recv) not in fa.facts_at(c):
+            r.fail("C13.forwarding", kk, "%s.check_rules is not preceded on every path by %s.clear_violations(): violations left by the fix pass on rules of later phases survive the gate and appear in the report" % (recv, recv), ar.loc(c))
+        else:
+            r.ok("C13.forwarding", kk, "violations left by the fix pass are discarded before the gated check")
     for s in cg.sites[ar.key]:
         if s.kind != "resolved":
             continue
@@ -465,6 +480,9 @@ def _bind_args(fi, call):
 
 _RL = "vsg/rule_list.py"
 VARIANTS = [
+    Variant("C13", "violations of the fix pass are not discarded before the gated check", "fire",
+            [("vsg/apply_rules.py", "    oRules.clear_violations()\n    oRules.check_rules(", "    oRules.check_rules("),
+             ("vsg/rule.py", "        lToi = self._get_tokens_of_interest(oFile)\n        self._analyze(lToi)", "        self.clear_violations()\n        lToi = self._get_tokens_of_interest(oFile)\n        self._analyze(lToi)")], rule="C13.forwarding", key="clear-before-check"),
     Variant("C13", "fix_phase upper bound off by one", "fire",
             [(_RL, "for phase in range(1, int(iFixPhase) + 1):", "for phase in range(1, int(iFixPhase)):")], rule="C13.loops", key="phase-upper-bound"),
     Variant("C13", "check sub-phase range shrinks", "fire",
